@@ -19,8 +19,8 @@ def main():
         nls = sorted(set(list(range(1, 40)) + [63, 64, 65, 127, 128, 129, 143, 144, 271, 300]))
     else:
         pls = [0, 1, 15, 16, 17, 31, 32, 33, 47, 48, 63, 64, 65, 127, 128, 129, 255, 256, 257, 271, 511, 513, 1025, 1100]
-        als = [0, 1, 15, 16, 17, 64, 127, 128, 129, 271]
-        nls = [1, 8, 11, 12, 13, 16, 17, 127, 128, 129, 300]
+        als = [0, 1, 15, 16, 17, 64, 127, 128, 129, 144, 160, 176, 183, 240, 271]     # block counts 8.. in every residue mod 4 (4-way GHASH loop)
+        nls = [1, 8, 11, 12, 13, 16, 17, 127, 128, 129, 144, 160, 176, 183, 300]
     tuples = [(12, pl, al, 16) for pl in pls for al in (0, 5)] + [(12, pl, 16, ts) for pl in (0, 17, 64, 271) for ts in (12, 13, 14, 15, 16)] + \
              [(12, pl, al, 16) for al in als for pl in (0, 37)] + [(nl, pl, 3, 16) for nl in nls for pl in (0, 17, 271)]
     tuples = sorted(set(tuples))
